@@ -162,6 +162,21 @@ func genC25(g *Gen) {
 			g.Op("send", "%s %s %s 0 0 %d %s %s %d 0 - %s none", Hex(key), Hex(iv), []string{"c", "k"}[n%2], n, Hex([]byte("no"+strconv.Itoa(n))), Hex([]byte("chan")), 1+n%2, Hex(p))
 		}
 	}
+	{
+		key, iv := []byte("0123456789abcdef"), []byte("ABCDEFGHIJKLMNOP")
+		for _, n := range []int{0, 5, 16, 20} {
+			p := g.R.Bytes(n)
+			encLen := ((n/16+1)*16 + 2) / 3 * 4
+			for k := 0; k < encLen; k++ {
+				for _, mode := range []string{"c", "k"} {
+					for _, kind := range []string{"t", "c"} {
+						g.Count("send:prefix-sweep")
+						g.Op("send", "%s %s %s 0 0 %d %s %s 1 0 - %s %s:payload:%d:%d", Hex(key), Hex(iv), mode, n, Hex([]byte("m1")), Hex([]byte("chan")), Hex(p), kind, k, k%8)
+					}
+				}
+			}
+		}
+	}
 	for i := 0; i < g.N; i++ {
 		if i%200 == 199 {
 			g.Case()
@@ -352,7 +367,7 @@ func genC25Send(g *Gen) {
 	msgno, chid, topic := c25Text(g), c25Text(g), c25Text(g)
 	payload := g.R.Bytes(c25PayloadLen(g, 1500))
 	var tamper string
-	switch g.R.Pick(20, 60, 8, 6, 6) {
+	switch g.R.Pick(20, 55, 14, 6, 6) {
 	case 0:
 		tamper = "none"
 	case 1: // single bit flip of a covered field / ciphertext / msg key
@@ -362,9 +377,15 @@ func genC25Send(g *Gen) {
 			bit = 5 // the ASCII case bit: 'a'..'f' <-> 'A'..'F' in the hex msg key, upper/lower case in ids and base64 text
 		}
 		tamper = fmt.Sprintf("f:%s:%d:%d", f, g.R.Intn(4096), bit)
-	case 2: // single byte deleted / inserted
+	case 2: // single byte deleted / inserted, ciphertext truncated to a prefix (incl. nothing)
 		f := c25Tampers[g.R.Intn(4)]
-		if g.R.Bool() {
+		if g.R.Chance(40) {
+			k := g.R.Intn(4096)
+			if g.R.Chance(40) {
+				k = 0
+			}
+			tamper = fmt.Sprintf("%s:payload:%d:%d", []string{"t", "c"}[g.R.Intn(2)], k, g.R.Intn(8))
+		} else if g.R.Bool() {
 			tamper = fmt.Sprintf("d:%s:%d:0", f, g.R.Intn(4096))
 		} else {
 			tamper = fmt.Sprintf("i:%s:%d:%d", f, g.R.Intn(4096), []int{'0', '1', 'A', '=', '\n', 0, 255, g.R.Intn(256)}[g.R.Intn(8)])
@@ -375,7 +396,7 @@ func genC25Send(g *Gen) {
 		tamper = fmt.Sprintf("f:%s:%d:%d", []string{"expire", "topic"}[g.R.Intn(2)], g.R.Intn(64), g.R.Intn(32))
 	}
 	g.Count("send:mode-" + mode)
-	g.Count("send:tamper-" + strings.SplitN(strings.TrimPrefix(strings.TrimPrefix(strings.TrimPrefix(tamper, "f:"), "d:"), "i:"), ":", 2)[0] + map[byte]string{'f': "-flip", 'd': "-del", 'i': "-ins"}[tamper[0]])
+	g.Count("send:tamper-" + strings.SplitN(strings.TrimPrefix(strings.TrimPrefix(strings.TrimPrefix(strings.TrimPrefix(strings.TrimPrefix(tamper, "f:"), "d:"), "i:"), "t:"), "c:"), ":", 2)[0] + map[byte]string{'f': "-flip", 'd': "-del", 'i': "-ins", 't': "-trunc", 'c': "-trunc+forged"}[tamper[0]])
 	if setting&16 != 0 {
 		g.Count("send:noencrypt-bit")
 	}
@@ -427,6 +448,11 @@ func c25TamperBytes(kind byte, b []byte, idx, arg int) []byte {
 		}
 		j := idx % len(out)
 		out = append(out[:j], out[j+1:]...)
+	case 't', 'c': // keep a strict prefix (possibly nothing)
+		if len(out) == 0 {
+			return out
+		}
+		out = out[:idx%len(out)]
 	case 'i':
 		j := idx % (len(out) + 1)
 		out = append(out[:j], append([]byte{byte(arg)}, out[j:]...)...)
@@ -611,7 +637,7 @@ func c25Send(f []string, suffix *string) string {
 		}
 	default:
 		p := strings.Split(t, ":")
-		if len(p) != 4 || len(p[0]) != 1 || !strings.Contains("fdi", p[0]) {
+		if len(p) != 4 || len(p[0]) != 1 || !strings.Contains("fditc", p[0]) || ((p[0] == "t" || p[0] == "c") && p[1] != "payload") {
 			return "bad-op"
 		}
 		idx, e1 := strconv.Atoi(p[2])
@@ -623,6 +649,14 @@ func c25Send(f []string, suffix *string) string {
 		switch p[1] {
 		case "payload":
 			pkt.Payload = c25TamperBytes(k, pkt.Payload, idx, arg)
+			if k == 'c' { // combined: truncated ciphertext + forged msg key + altered channel id
+				if len(pkt.MsgKey) > 0 {
+					mk := []byte(pkt.MsgKey)
+					mk[0] ^= byte(1 << uint(arg%8))
+					pkt.MsgKey = string(mk)
+				}
+				pkt.ChannelID += "X"
+			}
 		case "msgkey":
 			pkt.MsgKey = string(c25TamperBytes(k, []byte(pkt.MsgKey), idx, arg))
 		case "msgno":
